@@ -19,7 +19,7 @@ import numpy as np
 import common
 from common import w_cells, canon_cell, call
 import gen
-from bermuda import Triangle, Cell, CumulativeCell, IncrementalCell
+from bermuda import Triangle, Cell, CumulativeCell, IncrementalCell, Metadata
 from bermuda.utils import to_cumulative as f_to_cumulative, to_incremental as f_to_incremental
 
 ONE = datetime.timedelta(days=1)
@@ -152,7 +152,7 @@ def rebuild_inc(c, **over):
     return IncrementalCell(**kw)
 
 
-def broken_variants(rng, inc_cells):
+def broken_variants(rng, inc_cells, only=None):
     """every incremental triangle obtained from `inc_cells` (a complete one, sorted) by removing one
     link (a cell that is not the last of its row) or shifting one previous-evaluation date (or one
     evaluation date that a later cell links to). Each is (tag, cells)."""
@@ -162,6 +162,8 @@ def broken_variants(rng, inc_cells):
     out = []
     for idxs in rows.values():
         for pos, i in enumerate(idxs):
+            if only is not None and i not in only:
+                continue
             c = inc_cells[i]
             last = pos == len(idxs) - 1
             if not last:
@@ -181,7 +183,7 @@ def broken_variants(rng, inc_cells):
     return out
 
 
-def repoint_variants(rng, inc_cells, cap_other=4, cap_swap=6):
+def repoint_variants(rng, inc_cells, cap_other=4, cap_swap=6, only=None):
     """links re-pointed to dates that DO occur in the triangle (so a membership test instead of the
     chain test would accept them). Each is (tag, cells):
       repoint/earlier  every (cell i >= 2 of a row, evaluation date j < i-1 of the SAME row)
@@ -202,16 +204,18 @@ def repoint_variants(rng, inc_cells, cap_other=4, cap_swap=6):
         foreign = sorted({d for k2, idx2 in rows.items() if k2 != key for j in idx2
                           for d in (inc_cells[j].evaluation_date, inc_cells[j].prev_evaluation_date)} - own)
         for pos, i in enumerate(idxs):
+            if only is not None and i not in only:
+                continue
             c = inc_cells[i]
-            for j in range(pos - 1):                      # j < pos-1: an earlier, non-adjacent date of the row
+            for j in (range(pos - 1) if only is None or pos < 14 else sorted(rng.sample(range(pos - 1), 12))):   # j < pos-1: an earlier, non-adjacent date of the row
                 out.append(("repoint/earlier", with_prev(i, evs[j])))
             cands = [d for d in foreign if d < c.evaluation_date and d != c.prev_evaluation_date]
             for d in (rng.sample(cands, cap_other) if len(cands) > cap_other else cands):
                 out.append((f"repoint/other/{'first' if pos == 0 else 'later'}", with_prev(i, d)))
     # swaps across rows
     n = len(inc_cells)
-    pairs = [(a, b) for a in range(n) for b in range(a + 1, n)
-             if (inc_cells[a].metadata, inc_cells[a].period) != (inc_cells[b].metadata, inc_cells[b].period)
+    pairs = [(a, b) for a in (range(n) if only is None else sorted(only)) for b in (range(a + 1, n) if only is None else range(n))
+             if a != b and (inc_cells[a].metadata, inc_cells[a].period) != (inc_cells[b].metadata, inc_cells[b].period)
              and inc_cells[a].prev_evaluation_date != inc_cells[b].prev_evaluation_date
              and inc_cells[b].prev_evaluation_date < inc_cells[a].evaluation_date
              and inc_cells[a].prev_evaluation_date < inc_cells[b].evaluation_date]
@@ -339,11 +343,16 @@ def touch_accessors(tri):
             len(tri.slices), tri.is_multi_slice, tri.has_consistent_currency)
 
 
-def sequence_case(ctx, rng, send, prime):
+def sequence_case(ctx, rng, send, prime, given=None):
     """one case of the sequence stream. Reference outputs come from conversions of FRESH objects (and
-    go to the model/Spec through `send`); every later call in the sequences must reproduce them."""
-    shared = rng.random() < 0.5
-    cells, info = rand_cumulative(rng, force_kind=rng.choice(["iarr", "farr"]) if shared or rng.random() < 0.3 else None)
+    go to the model/Spec through `send`); every later call in the sequences must reproduce them.
+    `given` = (cells, info): a lesson input instead of a random one (consumes no random numbers for the input)"""
+    if given is not None:
+        shared = False
+        cells, info = given
+    else:
+        shared = rng.random() < 0.5
+        cells, info = rand_cumulative(rng, force_kind=rng.choice(["iarr", "farr"]) if shared or rng.random() < 0.3 else None)
     if shared:
         cells = share_arrays(rng, cells)
     ctx.count(f"seq/shared_arrays={shared}")
@@ -456,7 +465,7 @@ def constructor_refusals(ctx, rng, t, inc, send):
     cells = list(t.cells)
     # (a)
     c = rng.choice(cells)
-    twin = c.replace(values={k: (v + 1) for k, v in c.values.items()})
+    twin = c.replace(values={k: (v if v is None else v + 1) for k, v in c.values.items()})
     st, vt = call(Triangle, cells + [twin])
     if st == "ok":
         r = call(lambda: vt.to_incremental())
@@ -501,6 +510,175 @@ def constructor_refusals(ctx, rng, t, inc, send):
                 send("toCum", w_cells(vt.cells), dump(r), "to_cumulative with a non-validated cell (evaluation_date <= prev)")
 
 
+
+# ---- generator lessons of seeded batch 4 (BUILD_GUIDE, round 6): a fixed quota of each input kind in EVERY run ----
+
+def info_of(cells, layout):
+    by_row, kinds = {}, set()
+    for c in cells:
+        by_row[(c.metadata, c.period)] = by_row.get((c.metadata, c.period), 0) + 1
+        for v in c.values.values():
+            kinds.add("none" if v is None else ("iarr" if v.dtype.kind == "i" else "farr") if isinstance(v, np.ndarray)
+                      else "int" if isinstance(v, (int, np.integer)) else "float")
+    return {"slices": len({c.metadata for c in cells}), "layout": layout, "class": type(cells[0]).__name__,
+            "ep": any("earned_premium" in c.values for c in cells), "kinds": "/".join(sorted(kinds)),
+            "same_layout": True, "n_cells": len(cells), "max_row": max(by_row.values())}
+
+
+def cum_cells(rng, rows, meta, cls, fields, kinds, n_samples=3, ep_const=True, ep=None):
+    """cumulative cells of one slice over `rows` = [(ps, pe, [evaluation dates])]"""
+    out = []
+    for ps, pe, evals in rows:
+        epv = gen.rand_value(rng, kinds.get("earned_premium", "int"), n_samples) if ep is None else ep
+        for ev in evals:
+            vals = {}
+            for f in fields:
+                if f == "earned_premium" and (ep_const or ep is not None):
+                    vals[f] = epv.copy() if isinstance(epv, np.ndarray) else epv
+                else:
+                    vals[f] = gen.rand_value(rng, kinds[f], n_samples)
+            out.append(cls(ps, pe, ev, vals, meta))
+    return out
+
+
+def month_rows(y, m, n_periods, n_evals, res=1):
+    start = datetime.date(y, m, 1)
+    rows = []
+    for i in range(n_periods):
+        ps = gen.add_months_int(start, i * res)
+        pe = gen.add_months_int(ps, res - 1, end=True)
+        rows.append((ps, pe, [gen.add_months_int(pe, k * res, end=True) for k in range(n_evals)]))
+    return rows
+
+
+def late_indices(cells_sorted, n_rows=2, extra=()):
+    """indices (into the sorted cell list) of the cells of the LAST `n_rows` rows + `extra`"""
+    rows = []
+    for i, c in enumerate(cells_sorted):
+        k = (c.metadata, c.period)
+        if not rows or rows[-1][0] != k:
+            rows.append((k, []))
+        rows[-1][1].append(i)
+    only = set(extra)
+    for _, idxs in rows[-n_rows:]:
+        only |= set(idxs)
+    return only
+
+
+def warm(t):
+    """read every property / cached_property of a triangle"""
+    import functools
+    for name in dir(type(t)):
+        if name.startswith("_") or name.startswith("plot"):
+            continue
+        if isinstance(getattr(type(t), name, None), (property, functools.cached_property)):
+            call(getattr, t, name)
+    call(len, t)
+
+
+def lesson_inputs(rng, reps):
+    """(tag, cells or Triangle, layout name, only, also_sequence) — cumulative inputs of the lesson stream.
+    Lesson 2 (non-disjoint periods) is in the random stream (`layout_nested`, 20 % of the triangles); lesson 5
+    (all-of-them options) does not apply: the conversions take no options."""
+    for r in range(reps):
+        cls = lambda: rng.choice([Cell, CumulativeCell])
+        y = lambda: rng.randrange(1995, 2025)
+        # -- lesson 1: size thresholds ---------------------------------------------------------------------
+        for n_ev in (12, 40):
+            m = gen.rand_metas(rng, 1)[0]
+            k = rng.choice(VKINDS)
+            cells = cum_cells(rng, month_rows(y(), 1, 2, n_ev), m, cls(), ["paid_loss", "earned_premium", "reported_loss"],
+                              {"paid_loss": k, "reported_loss": k, "earned_premium": "int"})
+            yield f"large/row={n_ev}", cells, "long-row", None, n_ev == 12
+        m = gen.rand_metas(rng, 1)[0]
+        ps = datetime.date(y(), 1, 1)
+        pe = ps + datetime.timedelta(days=59)
+        n_ev = rng.choice([256, 257, 300])
+        evs = [pe + datetime.timedelta(days=i) for i in range(n_ev)]
+        k = rng.choice(["int", "float"])
+        cells = cum_cells(rng, [(ps, pe, evs), (pe + ONE, pe + datetime.timedelta(days=30), evs[-3:])], m, cls(),
+                          ["earned_premium", "paid_loss"], {"paid_loss": k, "earned_premium": k})
+        yield "large/row>=256", cells, "long-row", set(range(0, 6)) | set(range(250, n_ev)), False
+        metas = sorted(gen.rand_metas(rng, rng.choice([1, 2])))
+        k = rng.choice(["int", "float", "iarr"])
+        cells = []
+        for m in metas:
+            cells += cum_cells(rng, month_rows(y(), 1, 26 // len(metas), 13, res=rng.choice([1, 3])), m, CumulativeCell,
+                               ["paid_loss", "reported_loss"], {"paid_loss": k, "reported_loss": k}, n_samples=2)
+        yield "large/cells>=300", cells, "many-cells", "late", False
+        for ns in (256, 1000, rng.choice([40, 80, 255, 257])):
+            m = gen.rand_metas(rng, 1)[0]
+            k = rng.choice(["iarr", "farr"])
+            cells = cum_cells(rng, month_rows(y(), 1, 2, 3, res=12), m, cls(), ["paid_loss", "earned_premium", "open_claims"],
+                              {"paid_loss": k, "open_claims": rng.choice(["iarr", "farr"]), "earned_premium": rng.choice(["int", k])},
+                              n_samples=ns)
+            yield f"large/samples={ns if ns in (256, 1000) else 'other'}", cells, "samples", None, ns == 256
+        # -- lesson 3: dates off the month grid --------------------------------------------------------------
+        for i in range(2):
+            metas = sorted(gen.rand_metas(rng, rng.choice([1, 2])))
+            k = rng.choice(VKINDS)
+            y0, m0 = y(), rng.randrange(1, 7)
+            rows = []
+            for j in range(3):
+                if i == 0:          # half months: 1-15 and 16-EOM; evaluated on the 15th AND at the end of later months
+                    a = datetime.date(y0, m0 + j // 2, 1 if j % 2 == 0 else 16)
+                    b = datetime.date(y0, m0 + j // 2, 15) if j % 2 == 0 else gen.month_end(y0, m0 + j // 2)
+                else:               # periods 16th -> 15th
+                    a = datetime.date(y0, m0 + j, 16)
+                    b = gen.add_months_int(a, 1).replace(day=15)
+                evs = []
+                for q in range(rng.choice([2, 3])):
+                    mid = gen.add_months_int(b.replace(day=15), q + (0 if b.day == 15 else 1))
+                    evs += [mid.replace(day=15), gen.month_end(mid.year, mid.month)]
+                rows.append((a, b, sorted(set(e for e in evs if e >= b))))
+            cells, c0 = [], cls()
+            for m in metas:
+                cells += cum_cells(rng, rows, m, c0, ["earned_premium", "paid_loss"], {"paid_loss": k, "earned_premium": "float"})
+            yield ("offgrid/half-months" if i == 0 else "offgrid/16th-15th"), cells, "mid-month", None, i == 0
+        # -- lesson 4: late difference ----------------------------------------------------------------------
+        for flavour in ("late-fields", "late-kind", "late-longer-row", "all-same"):
+            metas = sorted(gen.rand_metas(rng, rng.choice([3, 4, 5]), single_attr=rng.random() < 0.5))
+            k = rng.choice(VKINDS)
+            rows = month_rows(y(), 1, 2, 3, res=rng.choice([3, 12]))
+            c0 = cls()
+            proto = cum_cells(rng, rows, metas[0], c0, ["paid_loss", "earned_premium"], {"paid_loss": k, "earned_premium": "int"})
+            cells = []
+            for mi, m in enumerate(metas):
+                late = mi == len(metas) - 1
+                if late and flavour == "late-fields":
+                    cells += cum_cells(rng, rows, m, c0, ["reported_loss", "open_claims"], {"reported_loss": k, "open_claims": "int"})
+                elif late and flavour == "late-kind":
+                    k2 = rng.choice([x for x in VKINDS if x != k])
+                    cells += cum_cells(rng, rows, m, c0, ["paid_loss", "earned_premium"], {"paid_loss": k2, "earned_premium": "float"})
+                elif late and flavour == "late-longer-row":
+                    rows2 = [(a, b, evs + [gen.add_months_int(evs[-1], 12 * q, end=True) for q in (1, 2)]) for a, b, evs in rows]
+                    cells += cum_cells(rng, rows2, m, c0, ["paid_loss", "earned_premium"], {"paid_loss": k, "earned_premium": "int"})
+                else:               # the early slices agree on everything: same coordinates, same values
+                    cells += [type(c)(c.period_start, c.period_end, c.evaluation_date, copy.deepcopy(c.values), m) for c in proto]
+            yield f"late/{flavour}", cells, "late", "late", flavour == "late-fields"
+        # -- lesson 8: falsy everywhere ---------------------------------------------------------------------
+        for flavour, ep in (("ep=0", 0), ("ep=0.0", 0.0), ("ep=None", None), ("ep=zeros", np.zeros(3)), ("all-zero-values", 0)):
+            metas = sorted([Metadata(country="", per_occurrence_limit=0, details={"k": j, "s": ""}, loss_details={"x": False})
+                            for j in range(rng.choice([1, 2, 3]))])
+            k = rng.choice(["int", "float", "farr"])
+            cells, c0 = [], cls()
+            for m in metas:
+                cs = cum_cells(rng, month_rows(y(), 1, 2, 3, res=12), m, c0, ["earned_premium", "paid_loss"],
+                               {"paid_loss": k, "earned_premium": "int"})
+                for c in cs:
+                    c.values["earned_premium"] = ep.copy() if isinstance(ep, np.ndarray) else ep
+                    if flavour == "all-zero-values":
+                        c.values["paid_loss"] = c.values["paid_loss"] * 0
+                cells += cs
+            yield f"falsy/{flavour}", cells, "falsy", None, flavour in ("ep=0", "ep=None")
+
+
+def rescaled_twin(cells):
+    """same coordinates, metadata, classes, field names, kinds and sizes — other values"""
+    return [type(c)(c.period_start, c.period_end, c.evaluation_date, {k: v * 3 + 1 for k, v in c.values.items()}, c.metadata)
+            for c in cells]
+
+
 # ---- correspondence -----------------------------------------------------------------------
 
 def run_stream(ctx, n_tri):
@@ -535,19 +713,13 @@ def run_stream(ctx, n_tri):
         # a failing input has been found (and recorded with its wire form): no need to pile up more
         return len(ctx.spec_failures) >= 40
 
-    for ti in range(n_tri):
-        if enough():
-            break
-        if ti % 400 == 399:
-            flush()
-        cells, info = rand_cumulative(rng)
-        st, t = call(Triangle, cells)
-        if st != "ok":
-            raise common.Infra(f"generator produced an invalid triangle: {t}")
+    def run_triangle(t, info, ti, stream="gen", only=None):
+        """steps 1-6b for ONE cumulative triangle (random and lesson cases alike). `only`: for big triangles, the
+        cell indices at which refusal variants are built (None = everywhere)"""
         tw = w_cells(t.cells)
         for k in ("slices", "layout", "class", "ep", "kinds"):
-            ctx.count(f"gen/{k}={info[k]}")
-        ctx.count(f"gen/max_row={min(info['max_row'], 4)}")
+            ctx.count(f"{stream}/{k}={info[k]}")
+        ctx.count(f"{stream}/max_row={min(info['max_row'], 4) if stream == 'gen' else ('>=256' if info['max_row'] >= 256 else '>=12' if info['max_row'] >= 12 else min(info['max_row'], 4))}")
         ctx.case(digest=json.dumps(canon(tw), sort_keys=True), nontrivial=info["max_row"] > 1,
                  sample={"op": "to_incremental/to_cumulative", **info})
 
@@ -557,7 +729,7 @@ def run_stream(ctx, n_tri):
         send("toInc", tw, d_inc, "to_incremental")
         if r_inc[0] != "ok":
             ctx.fail("to_incremental raised on a valid cumulative triangle", {"cells": tw}, d_inc)
-            continue
+            return
         inc = r_inc[1]
         iw = d_inc["ok"]
 
@@ -570,7 +742,7 @@ def run_stream(ctx, n_tri):
         if r_back[0] != "ok":
             ctx.fail("to_cumulative raised on the incremental form of a valid cumulative triangle",
                      {"cells": tw}, d_back)
-            continue
+            return
         back = r_back[1]
         if canon(d_back["ok"]) != canon(as_cum_wire(tw)):
             ctx.fail("to_cumulative(to_incremental(t)) does not reproduce the original cells exactly",
@@ -599,10 +771,10 @@ def run_stream(ctx, n_tri):
             ctx.fail("to_cumulative is not the identity on a cumulative triangle", {"cells": tw}, d_id2)
 
         # 5. refusals: broken chains
-        variants = broken_variants(rng, list(inc.cells))
+        variants = broken_variants(rng, list(inc.cells), only=only)
         if not ctx.thorough and len(variants) > 8:
             variants = rng.sample(variants, 8)
-        repoints = repoint_variants(rng, list(inc.cells))
+        repoints = repoint_variants(rng, list(inc.cells), only=only)
         if not ctx.thorough:
             # quick: a bounded sample of every class (same-row re-pointing first: it is the subtle one)
             by_cls = {}
@@ -674,6 +846,18 @@ def run_stream(ctx, n_tri):
         if ti % 3 == 0 and len(t.cells) > 0:
             constructor_refusals(ctx, rng, t, inc, send)
 
+
+    for ti in range(n_tri):
+        if enough():
+            break
+        if ti % 400 == 399:
+            flush()
+        cells, info = rand_cumulative(rng)
+        st, t = call(Triangle, cells)
+        if st != "ok":
+            raise common.Infra(f"generator produced an invalid triangle: {t}")
+        run_triangle(t, info, ti)
+
     # 7. a stream of directly generated complete incremental triangles (not obtained by conversion)
     for di in range(n_tri // 6):
         if enough():
@@ -710,6 +894,160 @@ def run_stream(ctx, n_tri):
         if si % 150 == 149:
             flush()
         prime = sequence_case(ctx, rng, send, prime)
+
+    # 10. the eight generator lessons of seeded batch 4: a fixed quota of each input kind in EVERY run, through
+    # exactly the same checks (run_triangle = steps 1-6b, sequence_case = step 8)
+    def lesson_case(tag, inp, layout, only, seq, li):
+        nonlocal prime
+        if isinstance(inp, Triangle):
+            t = inp
+        else:
+            inp = list(inp)
+            rng.shuffle(inp)
+            st, t = call(Triangle, inp)
+            if st != "ok":
+                raise common.Infra(f"lesson generator produced an invalid triangle ({tag}): {t}")
+        if len(t.cells) == 0:
+            ctx.count(f"lesson/{tag}: empty")
+            return None
+        cs = list(t.cells)
+        info = info_of(cs, layout)
+        ctx.count(f"lesson/{tag}")
+        if only == "late":
+            only = late_indices(cs)
+        elif only is None and len(cs) > 60:
+            only = late_indices(cs, extra=rng.sample(range(len(cs)), 10))
+        run_triangle(t, info, 3 * li, stream="lesson", only=only)
+        if seq and not enough():
+            prime = sequence_case(ctx, rng, send, prime, given=(cs, info))
+        return t
+
+    def complete(cells):
+        rows = {}
+        for c in cells:
+            rows.setdefault((c.metadata, c.period), []).append(c)
+        for (m, (ps, pe)), row in rows.items():
+            row = sorted(row, key=lambda c: c.evaluation_date)
+            if row[0].prev_evaluation_date != ps - ONE:
+                return False
+            if any(b.prev_evaluation_date != a.evaluation_date for a, b in zip(row, row[1:])):
+                return False
+        return True
+
+    def run_incremental(u, what):
+        """an incremental triangle obtained by DERIVING: to_cumulative against model + Spec, round trip, accessors;
+        refused with TriangleError exactly when a chain is broken (independent test `complete`)"""
+        uw = w_cells(u.cells)
+        ok_expected = complete(list(u.cells))
+        r_c = call(lambda: u.to_cumulative())
+        d_c = dump(r_c)
+        send("toCum", uw, d_c, what)
+        ctx.case(digest=json.dumps(canon(uw), sort_keys=True), nontrivial=len(uw) > 1)
+        ctx.count(f"lesson/{what.split(': to_cumulative')[0]}: " + ("complete" if ok_expected else "broken chain"))
+        if not ok_expected:
+            if r_c != ("err", "TriangleError"):
+                ctx.fail(f"{what}: incremental triangle with a broken chain is not refused with TriangleError", {"cells": uw}, d_c)
+            return
+        if r_c[0] != "ok":
+            ctx.fail(f"{what}: to_cumulative raised on a complete incremental triangle", {"cells": uw}, d_c)
+            return
+        bad = accessor_mismatch(r_c[1])
+        if bad:
+            ctx.fail(f"{what}: accessors of the result disagree with its cells {bad}", {"cells": uw})
+        d_b = dump(call(lambda: r_c[1].to_incremental()))
+        send("rtInc", uw, d_b, what + " -> to_incremental(to_cumulative(u))")
+        if d_b.get("ok") is None or canon(d_b["ok"]) != canon(uw):
+            ctx.fail(f"{what}: to_incremental(to_cumulative(u)) does not reproduce the complete incremental triangle u",
+                     {"cells": uw}, {"back": d_b})
+
+    def lessons(reps):
+        li = 0
+        for tag, inp, layout, only, seq in lesson_inputs(rng, reps):
+            if enough():
+                return
+            lesson_case(tag, inp, layout, only, seq, li)
+            li += 1
+        flush()
+        for r in range(reps):
+            # -- lesson 6: twins — A, then B with the same coordinates / metadata / kinds / sizes and other values -------
+            for i in range(3):
+                for _ in range(30):
+                    cells, info = rand_cumulative(rng, force_kind=rng.choice(["iarr", "farr"]) if i == 0 else None)
+                    if info["max_row"] >= 2:
+                        break
+                a = lesson_case("twin/A", cells, "twin", None, False, li)
+                b = lesson_case("twin/B (rescaled)", rescaled_twin(cells), "twin", None, False, li + 1)
+                if a is not None and b is not None and not enough():
+                    ia, ib = info_of(list(a.cells), "twin"), info_of(list(b.cells), "twin")
+                    prime = sequence_case(ctx, rng, send, None, given=(list(a.cells), ia))
+                    sequence_case(ctx, rng, send, prime, given=(list(b.cells), ib))
+                    sequence_case(ctx, rng, send, None, given=(list(a.cells), ia))
+                li += 2
+            flush()
+            # -- lesson 7: derived inputs with warm caches ------------------------------------------------------
+            for i in range(2):
+                for _ in range(60):
+                    cells, info = rand_cumulative(rng)
+                    if info["slices"] >= 2 and info["n_cells"] >= 6 and info["layout"] != "nested" and info["max_row"] >= 2:
+                        break
+                parent = Triangle(cells)
+                warm(parent)
+                pinc = call(lambda: parent.to_incremental())
+                call(lambda: pinc[1].to_cumulative())
+                cs = list(parent.cells)
+                last_meta = cs[-1].metadata
+                evs = sorted({c.evaluation_date for c in cs})
+                pss = sorted({c.period_start for c in cs})
+                fields = sorted({k for c in cs for k in c.values})
+                sub = [f for f in fields if f != "earned_premium"][:1] + (["earned_premium"] if rng.random() < 0.5 and "earned_premium" in fields else [])
+                for tag, fn in (("filter(last-slice)", lambda: parent.filter(lambda c: c.metadata == last_meta)),
+                                ("filter(all)", lambda: parent.filter(lambda c: True)),
+                                ("clip(max_eval)", lambda: parent.clip(max_eval=evs[len(evs) // 2])),
+                                ("clip(min_eval)", lambda: parent.clip(min_eval=evs[len(evs) // 2])),
+                                ("clip(min_period)", lambda: parent.clip(min_period=pss[len(pss) // 2])),
+                                ("t[1:]", lambda: parent[1:]),
+                                ("t[ps:, :, meta]", lambda: parent[pss[0]:, :, last_meta]),
+                                ("select(subset)", lambda: parent.select(sub)),
+                                ("select(all)", lambda: parent.select(fields)),
+                                ("slices[last]", lambda: parent.slices[last_meta]),
+                                ("derive_fields(const)", lambda: parent.derive_fields(aa_const=1)),
+                                ("derive_metadata", lambda: parent.derive_metadata(currency="XYZ"))):
+                    if enough():
+                        return
+                    st, d = call(fn)
+                    if st != "ok" or not isinstance(d, Triangle):
+                        ctx.count(f"lesson/derived/cum.{tag}: not derivable")
+                        continue
+                    if len({(json.dumps(common.w_meta(c.metadata), sort_keys=True), c.period, c.evaluation_date) for c in d.cells}) != len(d.cells):
+                        ctx.count(f"lesson/derived/cum.{tag}: slices collapsed (duplicate coordinates) - skipped")
+                        continue
+                    lesson_case(f"derived/cum.{tag}", d, "derived", None, tag in ("select(subset)", "filter(last-slice)"), li)
+                    li += 1
+                if pinc[0] == "ok":
+                    inc = pinc[1]
+                    warm(inc)
+                    for tag, fn in (("filter(last-slice)", lambda: inc.filter(lambda c: c.metadata == last_meta)),
+                                    ("clip(max_eval)", lambda: inc.clip(max_eval=evs[len(evs) // 2])),
+                                    ("clip(min_eval)", lambda: inc.clip(min_eval=evs[len(evs) // 2])),
+                                    ("clip(min_period)", lambda: inc.clip(min_period=pss[len(pss) // 2])),
+                                    ("t[1:]", lambda: inc[1:]),
+                                    ("t[:-1]", lambda: inc[:-1]),
+                                    ("t[ps:, :, meta]", lambda: inc[pss[0]:, :, last_meta]),
+                                    ("select(subset)", lambda: inc.select(sub)),
+                                    ("slices[last]", lambda: inc.slices[last_meta]),
+                                    ("derive_metadata", lambda: inc.derive_metadata(currency="XYZ"))):
+                        st, d = call(fn)
+                        if st != "ok" or not isinstance(d, Triangle) or len(d.cells) == 0:
+                            ctx.count(f"lesson/derived/inc.{tag}: not derivable / empty")
+                            continue
+                        if len({(json.dumps(common.w_meta(c.metadata), sort_keys=True), c.period, c.evaluation_date) for c in d.cells}) != len(d.cells):
+                            ctx.count(f"lesson/derived/inc.{tag}: slices collapsed (duplicate coordinates) - skipped")
+                            continue
+                        run_incremental(d, f"derived/inc.{tag}: to_cumulative on a triangle derived from a warm incremental parent")
+            flush()
+
+    if not os.environ.get("VERIF_SKIP_LESSONS"):
+        lessons(1 if not ctx.thorough else 3)
 
     # 9. the empty triangle
     e = Triangle([])
@@ -778,11 +1116,19 @@ if __name__ == "__main__":
              "identity conversion first and then the other direction on the SAME object, each conversion twice, again "
              "after the first result was mutated in place, conversions in both orders, chains through results, method "
              "and function forms, a priming call on a different triangle, cached accessors read on inputs and checked "
-             "on outputs against their cells. distinct = distinct canonical input dump; non-trivial = some row has >= 2 cells",
+             "on outputs against their cells; plus a fixed quota of LESSON inputs per run through the same steps (histogram lesson/*): "
+             "rows of 12 / 40 / >= 256 evaluation dates, >= 300 cells, sample arrays of 256 / 1000 / 40|80|255|257 elements, half-month and "
+             "16th-to-15th periods evaluated on the 15th and at month ends, 3-5 slices whose LAST slice has another field set / value kind / "
+             "longer rows (refusal variants built in the last rows), twins (same coordinates, rescaled values) converted one after the "
+             "other, triangles derived (filter, clip, slicing, select, slices, derive_fields, derive_metadata) from warm cumulative and "
+             "incremental parents (an incremental derivation with a broken chain must be refused), earned_premium 0 / 0.0 / None / zeros "
+             "and all-zero values with falsy metadata in every slice. "
+             "distinct = distinct canonical input dump; non-trivial = some row has >= 2 cells",
         assumptions=["values are exactly representable (ints, dyadic rationals < 2^12 with 3 fractional bits): IEEE "
                      "subtraction/addition is exact, so exact rational arithmetic in the model is the same function",
-                     "None-free rows, every field keeps one kind (int / float / int64 array / float64 array) and one "
-                     "shape along the triangle, no 0-d arrays, no int64 overflow",
+                     "None-free rows (lesson stream: earned_premium may be None — it is carried, never added), every field keeps "
+                     "one kind (int / float / int64 array / float64 array) and one shape along a ROW (lesson stream: the last slice "
+                     "may have another kind / field set), no 0-d arrays, no int64 overflow",
                      "theorems: triangles are in canonical form with distinct (metadata, period, evaluation date) "
                      "(WFcum.sorted), period_start is a valid calendar date",
                      "order of keys inside a result values dict is not compared (Python builds it from a set)"],
